@@ -36,7 +36,7 @@ mutual
   def toNode (scope : List (Str × Str)) : X → Node
     | .text s => .text s
     | .elem n as ks _ =>
-      .elem (splitQName n).2 (lookupNs (pushDecls scope as) (splitQName n).1) (plainAttrs as)
+      .elem (splitQName n).2 (lookupNs (pushDecls scope as) (splitQName n).1) (plainAttrs (pushDecls scope as) as)
         (kidNodes (pushDecls scope as) ks [] [])
   /-- mirror of the content loop: `acc` = nodes so far (reversed), `txt` = pending character data (reversed) -/
   def kidNodes (scope : List (Str × Str)) : List X → List Node → Str → List Node
